@@ -244,6 +244,43 @@ def parseImpl (body : List (List String)) : List OpObs :=
     | _ => (cur, acc)) (none, [])
   (flush cur acc).reverse
 
+/-- how many burst requests of a hub case lie inside the segment-level hypotheses of the state-level theorems of
+    C05 (`resume_new_cursor_on_hub_chain`, `resume_undo_cursor_on_hub_chain`, `resume_fork_cursor_on_hub`) and C07
+    (`handoff_by_number_is_seamless`): (served by-number requests, of which at or below the hub LIB; served cursor
+    requests, New on chain, Undo on chain, fork — each with the cursor LIB retained with its number and not above the hub LIB) -/
+def burstStats (cfg : Config) (body : List (List String)) : List (String × Nat) :=
+  let step (acc : FState × List (String × Nat)) (ws : List String) : FState × List (String × Nat) :=
+    let (st, cs) := acc
+    let bump (k : String) (cs : List (String × Nat)) : List (String × Nat) :=
+      if cs.any (·.1 == k) then cs.map (fun p => if p.1 == k then (p.1, p.2 + 1) else p) else cs ++ [(k, 1)]
+    match parseBlkOp ws with
+    | some (b, f) => ((processBlock cfg st b f).1, cs)
+    | none =>
+      match ws, headSegment st with
+      | ["op", "fromnum", n], some (_, seg) =>
+        (match n.toNat? with
+         | some n =>
+           if (blocksFromNum st n).isSome then
+             let cs := bump "thm.c07_by_number_served" cs
+             (st, if n ≤ st.db.libRef.num && seg.any (·.blk.num == n) then bump "thm.c07_by_number_inside_handoff_theorem" cs else cs)
+           else (st, cs)
+         | none => (st, cs))
+      | ["op", "fromcursor", _, stp, b, h, l], some (_, seg) =>
+        (match parseCur stp b h l with
+         | some c =>
+           if (blocksFromCursor st 4 c).isSome && (c.step == .new || c.step == .undo) then
+             let cs := bump "thm.c05_cursor_served" cs
+             let libOK := seg.any (fun e => e.blk.id == c.lib.id && e.blk.num == c.lib.num) && c.lib.num ≤ st.db.libRef.num
+             let onChain := blockIn c.block.id seg && blockIn c.lib.id seg
+             if onChain && libOK && c.step == .new then (st, bump "thm.c05_inside_new_cursor_theorem" cs)
+             else if onChain && libOK && c.step == .undo && c.block.num ≥ 1 then (st, bump "thm.c05_inside_undo_cursor_theorem" cs)
+             else if !onChain && libOK then (st, bump "thm.c05_inside_fork_cursor_theorem" cs)
+             else (st, cs)
+           else (st, cs)
+         | none => (st, cs))
+      | _, _ => (st, cs)
+  (body.foldl step (init cfg, [])).2
+
 def slug (s : String) : String :=
   let ws := (s.splitOn " ").take 3
   "-".intercalate (ws.map (fun w => String.ofList (w.toList.filter Char.isAlpha))) |>.toLower
@@ -274,6 +311,7 @@ def handle (hdr : List String) (body : List (List String)) : List String :=
         s!"note stat thm.steps_covered_by_history_theorem {cov}",
         s!"note stat thm.steps_covered_by_consistent_history_theorem {(consistentCovered cfg body).1}",
         s!"note stat thm.steps_covered_by_discovery_history_theorem {(consistentCovered cfg body).2.1}",
-        s!"note stat thm.steps_covered_by_inclusive_history_theorem {(consistentCovered cfg body).2.2}"])
+        s!"note stat thm.steps_covered_by_inclusive_history_theorem {(consistentCovered cfg body).2.2}"]) ++
+      (if hdr.getD 1 "" == "hubburst" then (burstStats cfg body).map (fun (k, n) => s!"note stat {k} {n}") else [])
 
 end BstreamVerif.Drv.ForkableDrv
